@@ -278,7 +278,7 @@ def rule_R11_2(ctx):
     n = 0
     for variant in ("OutOfStringBounds", "OutOfListBounds", "RangeOutOfListBounds", "RangeOutOfStringBounds"):
         for f, bb, kd, aops, sp in err_sites(prog, variant):
-            if f.module == "eval::bind":
+            if f.module.startswith("eval::bind"):
                 continue
             n += 1
             # nearest dominating Option switch from a `get`
